@@ -4,19 +4,19 @@ import itertools
 
 CLAIMED = True
 LEVEL = 'proof'
-LEVEL_TEXT = ('Proof: 16 Coq theorems over the Gallina models of Triangle::points()/bounding_box() (scanline iterator, Scanline::extend, '
+LEVEL_TEXT = ('Proof: 20 Coq theorems over the Gallina models of Triangle::points()/bounding_box() (scanline iterator, Scanline::extend, '
               'bresenham_intersection, sorted_yx, sorted_clockwise, area_doubled as written) and of the Polyline Points iterator (the nth(1) recursion '
-              'step by step). Proved for ALL triangles with coordinates within +-8192: the points do not depend on the vertex order (same list), every '
-              'lattice point of the closed mathematical triangle is yielded (non-zero area; colinear/coincident vertices: the segment), the Bresenham '
-              'lines between the sorted vertices are part of the fill, two triangles on one edge share that line and leave no gap, points() is strictly '
-              'row-major inside the bounding box; for ALL polylines (0, 1 or more vertices, repeats, reversals, any translate): points() = first segment '
-              'line ++ every further segment line without its first point. Partial: "within one pixel of an edge" is proved as "between two edge pixels '
-              'of its row"; the 1px outline clause has no theorem (thick-stroke code) and is compared exhaustively. Model and code are tied by running '
-              'both on ALL 117 649 ordered vertex triples of a 7x7 grid and on random inputs, on every run.')
+              'step by step). Proved for ALL triangles with coordinates within +-8192: the points do not depend on the vertex order (same list); every '
+              'lattice point of the closed mathematical triangle is yielded (non-zero area; colinear/coincident vertices: exactly the Bresenham line between '
+              'the extreme vertices); every yielded point is in the closed triangle or is a Bresenham pixel of a sorted edge, hence within HALF a pixel of an '
+              'edge segment; the Bresenham lines between the sorted vertices are part of the fill, two triangles on one edge share that line and leave no gap; '
+              'points() is strictly row-major inside the bounding box; for ALL polylines (0, 1 or more vertices, repeats, reversals, any translate): points() = '
+              'first segment line ++ every further segment line without its first point. The 1px-outline clause has no theorem (it runs through the thick-stroke '
+              'code) and is compared exhaustively. Model and code are tied by running both on ALL 117 649 ordered vertex triples of a 7x7 grid and on random inputs, on every run.')
 LEVEL_NOTE = ('Trusted: Coq kernel, extraction, the OCaml/Rust drivers; the hand-written model is validated by differential testing, not proved equal to '
               'the Rust code. The thin-line lemmas (closed form of Bresenham) are a copy of builder "line"\'s Proofs/Line.v (Proofs/TriLine.v). '
               'Arithmetic is unbounded Z; theorems carry tri_ok (+-8192), the range in which area_doubled/contains stay inside i32. '
-              'tri_outline_w1 and the Euclidean form of tri_within_one_pixel are OPEN (see PARTIAL).')
+              'tri_outline_w1 is OPEN (see PARTIAL).')
 RULE = ('correspondence: Triangle::points() / bounding_box() for ALL 117 649 ordered vertex triples of a 7x7 grid (colinear and coincident vertices '
         'included) + random triples up to +-40 (flat/thin/axis-parallel shares) and small triangles at the range edge +-8192; '
         'Polyline::points() / bounding_box() (with translate, and translate twice) for ALL vertex lists of length 0..=4 over a 3x3 grid and 0..=6 over 4 points '
@@ -35,9 +35,7 @@ ASSUMPTIONS = ['triangle vertex coordinates within +-8192 (tri_ok): the range in
 TRUSTED = ['modelled, not verified: Iterator::nth(1) = next() twice with early None; Range<i32>::is_empty / RangeInclusive::contains; '
            'Rectangle::rows() (C16 model); `triangle.is_collapsed()` is never reached for stroke width 0 (scanline_intersections.rs:46)',
            'Proofs/TriLine.v is a verbatim copy of branch wip-line Proofs/Line.v (closed form of the Bresenham line), compiled and audited here']
-PARTIAL = ['C19_tri_within_one_pixel_partial (full: tri_within_one_pixel - every covered point is inside the triangle or within one pixel of an edge; '
-           'proved: it lies in its row between two Bresenham pixels of the sorted edges; the Euclidean step is compared by p_tri on all 7x7 triples)',
-           'tri_outline_w1 (the 1px outline is the union of the three Bresenham lines between the clockwise-ordered vertices): no theorem, it runs through '
+PARTIAL = ['tri_outline_w1 (the 1px outline is the union of the three Bresenham lines between the clockwise-ordered vertices): no theorem, it runs through '
            'ThickSegment/LineJoin with width 1; compared by p_tri_outline on all ordered triples of a 6x6 (thorough 7x7) grid']
 
 PTS3 = [(x, y) for y in range(3) for x in range(3)]
